@@ -18,6 +18,12 @@ CHECKS = {
   note="Trusted: as C01. Error kinds are not compared (the property does not fix them).",
   technique=TV + " (Codec.tla, CodecTrace.tla)",
   design="DESIGN.md §6 C02"),
+ "C03": dict(
+  category="model_checking",
+  text="Every byte string of (a) the spec-derived enumeration (CmdCases.tla: every CID 0..255 x every truncation point per the command's length rule, including every AnsGroupMask, x {alone, + valid command, + unknown CID}, for all six command sets), (b) all strings of length <= 2 (quick) / <= 3 (thorough, all 2^24, run-length encoded by the recorder and expanded octet by octet by TLC) for the six iterators and the four frame-parser entry points, (c) seeded mutations of valid streams and frames and random strings of every length 0..255, (d) every XPayload::new at every length, is run through the real code with every accessor of every yielded command / parsed view called under catch_unwind and an iteration cap; TLC compares the yielded item list with MacCmds!Items (whole commands, lengths summing to a prefix, at most one trailing error, fused), checks MacCmds!WellFormed on it directly, the variant names, the payload bytes, and the frame classes against Codec!StructOk; a panic or non-termination is an event no rule accepts.",
+  note="Trusted: MacCmds.tla (written from LoRaWAN 1.0.3 sec. 5, TS009, TS005 as recalled; self-checked by MCCmds.tla on every run), Codec.tla, TLC, the recorder (no oracle logic). Exhaustive only for the short-string sub-space; longer strings are sampled (seeded, not coverage-guided: coverage-guided fuzzing is outside this technique family). The McClassC/BSessionAns length rule is a disputed entry (both readings accepted).",
+  technique=TV + " (MacCmds.tla, MCCmds.tla, CmdCases.tla, CmdTrace.tla, Codec.tla)",
+  design="DESIGN.md §6 C03"),
  "C04": dict(
   category="model_checking",
   text="Seeded random histories on the real nb and async(+Class C) front-ends in all 9 regions (OTAA and ABP), with hostile network input: JoinAccepts with arbitrary DLSettings/RxDelay/CFList (incl. RFU types), MAC-command streams with boundary and random field values (incl. reserved ones and malformed tails), replays, forgeries, random bytes, oversize frames, radio faults. Every call runs under catch_unwind with an RNG draw budget, so a panic or hang becomes a trace event no action of MacTrace.tla matches; after every history step the device's complete projected state must equal the specification's. Application misuse the type system allows is included (data on port 0, 200-255 byte payloads, set_datarate to any value 0..15, calls in the wrong nb state). Two open findings (channel selection without a usable channel / undefined data rate; send() panicking on port-0 data or oversize payloads) are listed in known_findings.json and reported as KNOWN-FINDING.",
@@ -72,12 +78,36 @@ CHECKS = {
   note='Trusted: Mac.tla (intended MAC behaviour, DESIGN Appendix B), Regions.tla (regional tables; disputed entries take the laxer reading), Codec.tla/Aes.tla/Cmac.tla (decide authenticity of every delivered frame and decode every uplink), TLC, the scripted radios/timer/RNG of the harness (no oracle logic). Histories are seeded-random (VERIF_SEED), not exhaustive; the exhaustive part is the named MC config over scaled-down constants.',
   technique="explicit TLA+ specification (Mac.tla, Regions.tla, Codec.tla) checked with TLC: " + 'MCAdr.cfg + MacTrace.tla' + "; implementation traces validated against it",
   design="DESIGN.md §6 C12"),
+ "C19": dict(
+  category="model_checking",
+  text="For every command with a creator, the creator is driven through its setters (each once, random order; the setter under test with every argument of its domain when <= 16 bits, boundary + random otherwise, in and out of range) and the built bytes are compared by TLC with the layout fold of MacCmds.tla (admissible value => accepted and exactly that field changes; otherwise refused or truncated, neighbours untouched, never a panic); every command is parsed and every accessor compared with MacCmds!FieldGet / the derived tables (all 256 values per octet position in the thorough tier); build_mac_commands of random command lists with the buffer at the boundary is compared with the concatenation and parsed back with MacCmds!Items; Display/FromStr of all 18 identifier and key types (all 2^16 DevNonces, random 24..128-bit values, a malformed-string corpus) are compared with MSB-first lowercase hex / 'exactly 2n hex digits'.",
+  note="Trusted: as C03 plus Aes.tla for the McKey wrapping. Builder and parser are each held to the layout separately, so agreeing-but-wrong pairs are caught. Not covered: layout fields the library has no accessor or setter for (listed in the evidence), last-write-wins of repeated setters. One open finding (S12, DeviceTimeAns seconds byte order: the pinned test asserts the swapped value) is reported as KNOWN-FINDING.",
+  technique=TV + " (MacCmds.tla, MCCmds.tla, CmdTrace.tla, Aes.tla)",
+  design="DESIGN.md §6 C19"),
  "C20": dict(
   category="model_checking",
   text="In the histories of the MAC family a serialise / deserialise / install step is inserted after about 5% of the calls (nb front-end: set_session of the deserialised copy). The snapshot after the step must equal the specification state in every session field (keys, address, both counters incl. 'no downlink yet', ADR counter, pending answers, owed ACK), and the rest of the history (next uplink bytes, verdicts on replayed downlinks) is validated against the unchanged specification state, i.e. the restored device is held to the original's future.",
   note='Trusted: Mac.tla (intended MAC behaviour, DESIGN Appendix B), Regions.tla (regional tables; disputed entries take the laxer reading), Codec.tla/Aes.tla/Cmac.tla (decide authenticity of every delivered frame and decode every uplink), TLC, the scripted radios/timer/RNG of the harness (no oracle logic). Histories are seeded-random (VERIF_SEED), not exhaustive; the exhaustive part is the named MC config over scaled-down constants.',
   technique="explicit TLA+ specification (Mac.tla, Regions.tla, Codec.tla) checked with TLC: " + 'MacTrace.tla' + "; implementation traces validated against it",
   design="DESIGN.md §6 C20"),
+ "C13": dict(
+  category="model_checking",
+  text="Sx126xWire.tla and Sx127xWire.tla state, per driver operation, the SPI traffic the data sheets and Semtech's reference driver SWL2001 define: opcode/register framing, SF/BW/CR/LDRO/header/CRC/IQ/preamble/payload encodings, PLL-word formulas, PA rows of table 13-21 and TX parameters, IRQ masks, mantissa/exponent and 10-bit symbol timeouts, image-calibration bands, buffer base/FIFO handling, sync word registers, sleep/standby/TX/RX/CAD commands, read-modify-write rules given the prior register contents, and the chapter-15 / SX1276 errata 2.1, 2.3 sequences as named operators. The harness records BOTH lora-phy and SWL2001 (via smtc-modem-cores) over an emulated SPI bus with identical primed register contents for every operation and parameter tuple of the enumeration (all SF x BW x CR x LDRO, preamble set x flags x payload lengths, LoRaWAN channel rasters + a stride over 137-1020 MHz, all power requests x chip variants x PA paths, symbol timeouts, sync words, random prior registers); TLC validates every recorded transaction list against the operators (SX126x: byte-identical lists; SX127x: register-file effect on owned fields, FIFO stream, all other bits untouched). A reference recording the specification rejects is a tool error, a lora-phy recording it rejects is a violation.",
+  note="Trusted: the two wire modules (pinned by the reference driver over the same parameter space and by known-answer ASSUMEs), TLC, the emulated SPI bus / chip memories of the recorder (no oracle logic). SX127x comparison is on chip-visible effect because the two drivers factor register traffic differently (as the repository's own tests do); documented per-driver policy bits are free. Not compared: SX127x packet fetch and image calibration (no wire counterpart in the reference), TCXO/DC-DC start-up branches, LR11xx. Sampled, not exhaustive.",
+  technique=TV + " (Sx126xWire.tla, Sx127xWire.tla, WireBits.tla, WireTrace.tla); reference driver recorded alongside",
+  design="DESIGN.md §6 C13"),
+ "C17": dict(
+  category="model_checking",
+  text="The decode operators of the wire modules (PLL word -> Hz for both synthesiser resolutions, PA configuration + TX parameters -> dBm by table 13-21 / the RegPaConfig formulas, timeout registers -> symbols, status bytes -> RSSI/SNR) are the oracle: the real drivers are driven over the emulated SPI bus and TLC decodes what they programmed. Checked: SX126x word is the nearest step (< 1 Hz), SX127x within one step (< 62 Hz), conversion periodicity word(f+15625) = word(f)+16384; PA settings decode to the request clamped into the PA path's range, never above it; programmed symbol timeout >= request up to the chip maximum (248 / 1023); the LoRaWAN adapter's ms->symbols conversion observed through LorawanRadio covers 12.25 preamble symbols + margin (exact rational symbol time); reported RSSI/SNR within 1 dB of the data sheet conversion, no panic.",
+  note="Trusted: the decode operators (data sheet formulas, known-answer ASSUMEs), Modulation.tla bandwidth table, TLC, the recorder. The 8.8e8-point 1 Hz sweep is replaced by whole conversion periods + the periodicity relation (stated assumption); status triples are covered per byte plus the (rssi,snr) cross, not all 2^24. SX127x RSSI for negative SNR accepts both the data sheet reading and the reference's slope-corrected reading. Open findings are reported as KNOWN-FINDING.",
+  technique=TV + " (Sx126xWire.tla, Sx127xWire.tla decode operators, Modulation.tla, WireTrace.tla)",
+  design="DESIGN.md §6 C17"),
+ "C18": dict(
+  category="model_checking",
+  text="RxFetch.tla defines what fetching a received packet may do: the chip's 256-byte buffer with address wrap-around, the packet length the chip defines (reported length, or the configured one with an implicit header), the SX126x command-status codes, and the allowed outcomes (success with exactly the packet bytes and an untouched tail, or an error; never a panic; success required when the packet fits and the status is clean). The emulated chip buffer holds an injective position pattern and the caller's buffer canaries (two runs), so the recorder logs a lossless run-length description of the caller's buffer; TLC checks every case: thorough = all 256 lengths x 256 offsets x buffer sizes {0,1,12,64,255,256} x header modes x 12 status bytes on RadioKind::get_rx_payload for SX1262, SX1276, SX1272 (exhaustive), plus a 16x16 grid through LoRa::complete_rx and LorawanRadio::rx_single.",
+  note="Trusted: RxFetch.tla (chip buffer semantics from the data sheets), TLC, the emulated chip memory. The indirect call paths are sampled on a grid in both tiers.",
+  technique=TV + " (RxFetch.tla, WireTrace.tla); exhaustive on the direct call path in the thorough tier",
+  design="DESIGN.md §6 C18"),
  "C14": dict(
   category="model_checking",
   text="Exhaustive enumeration of API call sequences (quick: depth 2, thorough: depth 3, plus structured depth-4/5 histories around sleep/re-initialisation) over the property's call alphabet x interrupt outcomes, with a fault injected at EVERY bus event (SPI transfer, BUSY wait, DIO wait, reset, RF switch) of the last call and a dropped future at the droppable wait, on the real LoRa<Sx126x> over a scripted bus. PhyTrace.tla holds an abstract SX126x that is stepped by decoding the raw SPI bytes actually sent, and checks the four clauses: wrong-mode calls refused without bus traffic, never commanded asleep without wake-up, everything reprogrammed after cold start before TX/RX/CAD starts, standby + driver knows after failure. Injected-fault violations of clause 4 are an open finding (S23), listed per call; timeouts and interrupt errors are held to clause 4 strictly.",
